@@ -34,6 +34,17 @@ use std::fmt::Debug;
 
 use crate::ktypes::*;
 
+pub const MORE_PAIRS: [(&str, &str); 8] = [
+    ("Kmer4", "Kmer2"),
+    ("Kmer5", "Kmer3"),
+    ("Kmer10", "Kmer4"),
+    ("Kmer14", "Kmer5"),
+    ("Kmer15", "Kmer6"),
+    ("Kmer24", "Kmer8"),
+    ("Kmer30", "Kmer10"),
+    ("Kmer40", "Kmer8"),
+];
+
 pub const PAIRS: [(&str, &str); 9] = [
     ("Kmer6", "Kmer3"),
     ("Kmer8", "Kmer4"),
@@ -489,7 +500,7 @@ impl Harness for C04 {
     }
     fn gen(&self, rng: &mut Rng, tier: Tier) -> Case {
         // small K dominate: dense graphs, palindromes and repeats at shard junctions
-        let pair = match rng.below(40) {
+        let pair = match rng.below(44) {
             0..=9 => PAIRS[0],
             10..=17 => PAIRS[1],
             18..=23 => PAIRS[2],
@@ -498,6 +509,7 @@ impl Harness for C04 {
             32..=35 => PAIRS[5],
             36..=37 => PAIRS[6],
             38 => PAIRS[7],
+            39..=42 => *rng.pick(&MORE_PAIRS),
             _ => {
                 if tier == Tier::Thorough && rng.chance(1, 20) {
                     PAIRS[8]
@@ -589,6 +601,14 @@ impl Harness for C04 {
             ("Kmer32", "Kmer8") => run_kp::<Kmer32, Kmer8>(c, rec, true),
             ("Kmer48", "Kmer10") => run_kp::<Kmer48, Kmer10>(c, rec, false),
             ("Kmer64", "Kmer12") => run_kp::<Kmer64, Kmer12>(c, rec, false),
+            ("Kmer4", "Kmer2") => run_kp::<Kmer4, Kmer2>(c, rec, false),
+            ("Kmer5", "Kmer3") => run_kp::<Kmer5, Kmer3>(c, rec, false),
+            ("Kmer10", "Kmer4") => run_kp::<Kmer10, Kmer4>(c, rec, false),
+            ("Kmer14", "Kmer5") => run_kp::<Kmer14, Kmer5>(c, rec, false),
+            ("Kmer15", "Kmer6") => run_kp::<Kmer15, Kmer6>(c, rec, false),
+            ("Kmer24", "Kmer8") => run_kp::<Kmer24, Kmer8>(c, rec, false),
+            ("Kmer30", "Kmer10") => run_kp::<Kmer30, Kmer10>(c, rec, false),
+            ("Kmer40", "Kmer8") => run_kp::<Kmer40, Kmer8>(c, rec, false),
             other => panic!("pair {:?} not in list", other),
         }
     }
